@@ -39,7 +39,7 @@ def units(tier, seed):
         {"sid": "basic", "family": "inline_s", "size": 4 if q else 5, "donor": ("inline_s", 3), "max_slices": 30 if q else 100},
         {"sid": "iso", "family": "iso", "size": 7 if q else 8, "donor": ("iso", 6), "max_slices": 25 if q else 80},
         {"sid": "topmarks", "family": "topmarks", "size": 4 if q else 5, "donor": ("topmarks", 3), "max_slices": 20 if q else 60},
-        {"sid": "basic", "family": "links", "size": 5 if q else 6, "donor": ("links", 3), "max_slices": 12 if q else 40},
+        {"sid": "basic", "family": "links", "size": 4 if q else 6, "donor": ("links", 3), "max_slices": 10 if q else 40},
     ]
     extra = [
         {"sid": "table", "family": "table", "size": 12 if q else 14, "donor": ("table", 10), "max_slices": 25 if q else 80},
